@@ -94,6 +94,10 @@ def check_fold(ctx, repo: Repo, pid: str):
     ok = recv == "self.full_voronoi" and isinstance(sp, ast.Name) and sp.id == "sel_property"
     ctx.check(ok, "FOLD", f"{tag}.source", "the folded matrix starts from the FULL-sphere matrix of the same property "
               "(self.full_voronoi, not super())", where, norm_stmt(n_assign), witness=f"receiver {recv}, property {src(sp) if sp is not None else None}")
+    # further options of that request are evaluated on the full-sphere routine itself (voro.pairwise_matrix with these keywords)
+    extra = {k: v for k, v in kw.items() if k not in ("sel_property",)}
+    if extra:
+        ctx.notes.append(f"the fold requests the full-sphere matrix with extra options {sorted(extra)}")
     init = ci.methods.get("__init__")
     if init is not None:
         fv = [n for n in ast.walk(init.node) if isinstance(n, ast.Assign) and src(n.targets[0]) == "self.full_voronoi"]
@@ -267,3 +271,29 @@ def check_fold(ctx, repo: Repo, pid: str):
     else:
       ctx.check(okp, "SELECT", f"{tag}.upper.predicate", "upper indices are the rows of the double cover that satisfy q_in_upper_sphere "
               "(positive polarity)", gu.where, witness=src(gu.node)[:200])
+
+
+def fold_request_kwargs(repo: Repo):
+    """keyword arguments (other than sel_property) with which HalfRotobjVoronoi._calculate_N_N_array requests the full-sphere matrix,
+    as constants where they are decidable: a parameter of the folding method is replaced by its default value"""
+    from ..voro import VO
+    ci = repo.cls(VO, "HalfRotobjVoronoi")
+    fi = ci.methods.get("_calculate_N_N_array")
+    out = {}
+    if fi is None:
+        return out
+    defaults = fi.defaults()
+    for c in ast.walk(fi.node):
+        if isinstance(c, ast.Call) and isinstance(c.func, ast.Attribute) and c.func.attr == "_calculate_N_N_array" and \
+                src(c.func.value) == "self.full_voronoi":
+            for k in c.keywords:
+                if k.arg in (None, "sel_property"):
+                    continue
+                v = k.value
+                if isinstance(v, ast.Name) and v.id in defaults and isinstance(defaults[v.id], ast.Constant):
+                    out[k.arg] = defaults[v.id].value
+                elif isinstance(v, ast.Constant):
+                    out[k.arg] = v.value
+                else:
+                    out[k.arg] = None          # undecidable here
+    return out
